@@ -5,5 +5,6 @@ DocMode = FALSE
 Vocab <- VocabFrag
 TextKinds <- TK6
 OptSets <- AllOpts
+Bugs <- NoBugs
 INVARIANTS BuilderSound DesignRefines Emit
 CHECK_DEADLOCK FALSE
